@@ -131,7 +131,13 @@ class Check:
         return rc == 0, out + err
 
     def failing_decls(self, output, relfile):
-        """names of declarations in lean/<relfile> that have errors in `output`"""
+        """names of declarations in lean/<relfile> that have errors in `output`
+        (declaration spans start at the doc comment / attribute line: checks/failing_spans.py)"""
+        try:
+            from failing_spans import failing_decls_spans
+            return failing_decls_spans(output, relfile, LEAN)
+        except Exception:
+            pass
         path = os.path.join(LEAN, relfile)
         lines = open(path).read().split('\n')
         decl_at = []
